@@ -91,7 +91,7 @@ class EngineDCheck(dst.Check):
             return (cls.startswith('miss_') and '_befs' in cls and 'exit 2' in msg)
 
         def befs_uniform_multivalued(plan, cls, msg):
-            return (cls.startswith('miss_') and cls.endswith('_befs_uniform') and
+            return ((cls.startswith('miss_') or cls.startswith('missed_')) and cls.endswith('_befs_uniform') and
                     bool(ops(plan) & {'mc_random', 'wait_any', 'test_any'}))
 
         def join_after_sleep(plan, cls, msg):
@@ -105,13 +105,30 @@ class EngineDCheck(dst.Check):
             # one transition of an actor is applied to another one: loops, crashes, values out of range, missed executions
             if not (ops(plan) & {'mc_random', 'wait_any', 'test_any'}):
                 return False
-            if cls in ('hang_mc_random', 'odpor_count', 'missed_odpor', 'missed_sdpor') and ('odpor' in msg or 'sdpor' in msg):
+            if (cls == 'hang_mc_random' or cls.startswith('odpor_count') or cls.startswith('odpor_dup') or
+                    cls.startswith('missed_odpor') or cls.startswith('missed_sdpor')) and \
+                    ('odpor' in msg or 'sdpor' in msg):
                 return True
             return any(cls.startswith(p + r) for p in ('loop_', 'abort_', 'illegal_value_', 'path_invalid_', 'path_outcome_',
                                                        'miss_outcome_', 'miss_assert_', 'miss_deadlock_',
                                                        'miss_outcome_after_assert_', 'miss_assert_after_assert_',
                                                        'miss_deadlock_after_assert_')
                        for r in ('odpor', 'sdpor'))
+
+        def first_transition_empty_path(plan, cls, msg):
+            # DFSExplorer::get_record_trace returns an empty trace while stack_ is still null (first transition)
+            return (cls.startswith('path_unreal_') or cls.startswith('replay_')) and ("path '')" in msg or "replay:''" in msg)
+
+        def odpor_befs_uniform(plan, cls, msg):
+            # odpor under BeFS with the uniform strategy: equivalent executions explored (the checker's own verification aborts)
+            # or classes never explored
+            return cls in ('odpor_dup_own_befs_uniform', 'odpor_dup_befs_uniform', 'odpor_count_befs_uniform')
+
+        def udpor_reports(plan, cls, msg):
+            return cls in ('path_unreal_udpor', 'replay_udpor', 'verdict_udpor', 'replay_nondet_udpor') and 'udpor/' in msg
+
+        def sdpor_actor_minus_one(plan, cls, msg):
+            return cls.startswith('abort_sdpor_Actor_does_not_exist') and 'Actor -1 does not exist' in msg
 
         def after_assert(plan, cls, msg):
             return cls.startswith('miss_') and '_after_assert_' in cls
@@ -145,7 +162,9 @@ class EngineDCheck(dst.Check):
                     udpor_incomplete=udpor_incomplete, udpor_exit_status=udpor_exit_status, maxerr_paths=maxerr_paths,
                     message_queue=message_queue, orphan_async_comm=orphan_async_comm,
                     befs_after_deadlock=befs_after_deadlock, befs_uniform_multivalued=befs_uniform_multivalued,
-                    after_assert=after_assert)
+                    after_assert=after_assert, sdpor_actor_minus_one=sdpor_actor_minus_one,
+                    first_transition_empty_path=first_transition_empty_path, udpor_reports=udpor_reports,
+                    odpor_befs_uniform=odpor_befs_uniform)
 
     def signature(self, plan, res):
         return res.get('hash', '')
@@ -183,14 +202,13 @@ def slug(msg, words=5):
 
 
 def loop_msg(r):
-    """message for an exploration that goes round in circles"""
+    """message for an exploration that goes round in circles (nothing in it may depend on when the run was stopped)"""
     cnt = {}
     for p in r['complete_paths']:
         cnt[p] = cnt.get(p, 0) + 1
-    top = sorted(cnt.items(), key=lambda kv: (-kv[1], kv[0]))[:2]
-    return ('simgrid-mc %s never ends: it explores the same complete execution again and again (%s); %d distinct complete '
-            'executions seen before it was stopped' % (r['config'], ', '.join('%s printed %d times' % kv for kv in top),
-                                                       len(cnt)))
+    rep = sorted(p for p, n in cnt.items() if n >= 3)
+    return ('simgrid-mc %s never ends: it explores the same complete execution again and again (e.g. %s, printed at least 3 '
+            'times before the run was stopped)' % (r['config'], rep[0] if rep else '?'))
 
 
 def abort_msg(r):
